@@ -25,6 +25,22 @@ Theorem C08_limit_pulls : forall (A : Type) (s : stream A) (N : Z),
   (N < 0 -> forall fuel i, drain N s fuel i = drain_raw s fuel i).
 Proof. exact (fun A s N => conj (fun H fuel => limit_pulls s N fuel H) (limit_negative_identity s N)). Qed.
 
+(* Partial consumption: a consumer that asks limit_iterable N src for at most k items pulls at most
+   min(k, N+1) items from the source (exactly that many when the source has them), gets only items of
+   the source, at most min(k, N) of them, and sees CollectionTooLargeException iff k > N and the source
+   has more than N items.  With N < 0 it never raises. *)
+Theorem C08_limit_prefix : forall (A : Type) (s : stream A) (N : Z) (k : nat),
+  (0 <= N ->
+   let '(l, e, p) := take_lim N s k O in
+   let n := Z.to_nat N in
+   (p <= Nat.min k (S n))%nat /\
+   (e = Raised <-> (n < k)%nat /\ more_than s N) /\
+   ((forall j, (j < Nat.min k (S n))%nat -> s j <> None) -> p = Nat.min k (S n)) /\
+   (length l <= Nat.min k n)%nat /\
+   (forall j, (j < length l)%nat -> s j = nth_error l j)) /\
+  (N < 0 -> forall i, snd (fst (take_lim N s k i)) <> Raised).
+Proof. exact (fun A s N k => conj (limit_prefix s N k) (fun H => limit_prefix_negative s N H k)). Qed.
+
 (* the sized branch (Sequence / Mapping / Set): raises iff 0 <= N < len, else the collection itself *)
 Theorem C08_limit_sized : forall (A : Type) (N : Z) (l : list A),
   (limit_sized N l = TooLarge <-> 0 <= N < Z.of_nat (length l)) /\
@@ -69,6 +85,19 @@ Proof. exact statement_result_fits. Qed.
 (* without a quota (Q <= 0) the protocol is transparent *)
 Theorem C08_quota_off_identity : forall Q, Q <= 0 -> forall e, fst (ceval Q e) = Some (csize e).
 Proof. exact quota_off_identity. Qed.
+
+(* Accumulator loops (distinct, groupBy, toDict, generate with decycle, memorize): the private
+   accumulator is checked after every step, so for Q > 0 and an accumulator that starts within the
+   quota: before every step it fits Q; the loop raises at the FIRST step that takes it above Q, and at
+   that moment it exceeds Q by at most that one step's growth; if the loop completes, it fits Q. *)
+Theorem C08_accumulator_bounded : forall Q a0 gs, 0 < Q -> a0 <= Q ->
+  let '(a, raised, n) := acc_loop Q a0 gs in
+  (n <= length gs)%nat /\
+  a = a0 + zsum (firstn n gs) /\
+  (forall j, (j < n)%nat -> a0 + zsum (firstn j gs) <= Q) /\
+  (raised = true -> (1 <= n)%nat /\ Q < a /\ a <= Q + nth (n - 1) gs 0) /\
+  (raised = false -> n = length gs /\ a <= Q).
+Proof. exact accumulator_bounded. Qed.
 
 (* the estimate of `x * c` (strings; sequences after the repair of F6) refuses whenever the
    product would exceed the quota - for every size function obeying the linear law.
@@ -120,6 +149,11 @@ Proof. exact iterator_params_partition. Qed.
 (* an endless source under N = 2: three pulls, then the exception *)
 Example C08_example_endless : consume 2 [] true = (TooLarge, 3%nat).
 Proof. vm_compute. reflexivity. Qed.
+(* asking an endless source for 2 items under N = 5 pulls 2; asking for 9 pulls 6 and raises *)
+Example C08_example_prefix :
+  take_lim 5 (src_nth Z.of_nat [] true) 2 O = ([0; 1], Asked, 2%nat)
+  /\ take_lim 5 (src_nth Z.of_nat [] true) 9 O = ([0; 1; 2; 3; 4], Raised, 6%nat).
+Proof. vm_compute. split; reflexivity. Qed.
 (* exactly N items pass *)
 Example C08_example_exact : consume 2 [7; 8] false = (Ok [7; 8], 2%nat).
 Proof. vm_compute. reflexivity. Qed.
@@ -145,6 +179,10 @@ Example C08_example_calls :
   csize e = 131 /\ fst (crun 131 (fun l => hd 0 l) e) = Some 131 /\ fst (crun 130 (fun l => hd 0 l) e) = None
   /\ snd (crun 130 (fun l => hd 0 l) e) = [71; 71; 101; 71; 101].
 Proof. vm_compute. repeat split. Qed.
+(* a set accumulator on this interpreter: 216 bytes up to 4 elements, 728 from the 5th on *)
+Example C08_example_accumulator :
+  acc_loop 500 216 [0; 0; 0; 0; 512; 0; 0] = (728, true, 5%nat) /\ acc_loop 800 216 [0; 0; 0; 0; 512; 0; 0] = (728, false, 7%nat).
+Proof. vm_compute. split; reflexivity. Qed.
 Example C08_example_quota :
   limit_memory_usage 100 [(1, 60); (1, 41)] = true /\ limit_memory_usage 101 [(1, 60); (1, 41)] = false
   /\ limit_memory_usage 100 [(3, 50); (- 2, 50)] = true   (* early exit on a prefix *)
@@ -161,6 +199,7 @@ Example C08_example_params : (1 <=? length (filter collection_typed params))%nat
 Proof. vm_compute. split; reflexivity. Qed.
 
 Print Assumptions C08_limit_pulls.
+Print Assumptions C08_limit_prefix.
 Print Assumptions C08_limit_sized.
 Print Assumptions C08_result_width.
 Print Assumptions C08_finalize_terminates.
@@ -168,6 +207,7 @@ Print Assumptions C08_quota_threshold.
 Print Assumptions C08_no_over_quota_value_passed_on.
 Print Assumptions C08_statement_result_fits.
 Print Assumptions C08_quota_off_identity.
+Print Assumptions C08_accumulator_bounded.
 Print Assumptions C08_repetition_refuses_first.
 Print Assumptions C08_repetition_refuses_first_here.
 Print Assumptions C08_repetition_never_over_quota.
